@@ -29,6 +29,9 @@ REWRITES = [
   # a replacement that CONTAINS its own key below a container ("a replacement is not rewritten again": L0 -> list[L0] means lists of L0, not lists of lists)
   ('ov_rec_item', 'BeartypeConf(hint_overrides=FrozenDict({L0: list[L0]}))', [(r'\bL0\b', 'list[L0]')]),
   ('ov_rec_value', 'BeartypeConf(hint_overrides=FrozenDict({float: dict[str, float]}))', [(r'\bfloat\b', 'dict[str, float]')]),
+  # a replacement that accepts everything: wherever the key occurs - also inside a union - the hint behaves as the ignorable replacement
+  ('ov_any', 'BeartypeConf(hint_overrides=FrozenDict({L0: Any}))', [(r'\bL0\b', 'Any')]),
+  ('ov_object', 'BeartypeConf(hint_overrides=FrozenDict({float: object}))', [(r'\bfloat\b', 'object')]),
   ('viol_type', 'BeartypeConf(violation_type=ValueError)', []),
   ('viol_door_warn', 'BeartypeConf(violation_door_type=UserWarning, violation_param_type=UserWarning)', []),
 ]
